@@ -524,7 +524,11 @@ type probe struct {
 
 func acceptable(kind string) bool { return kind == "reg" || kind == "reg-tnil" }
 
-func buildProbes(cn string, maxRegs int, shareKinds []string) []probe {
+//
+// confIll / confMaxRegs: R also ranges over the representative pairs of the handler-conformance
+// dimension that do not implement their interface (conform.go), conf(I,H):<every pool name>, in the
+// prefix states of at most confMaxRegs registrations; refusal class "ill-shape".
+func buildProbes(cn string, maxRegs int, shareKinds []string, confIll []confPair, confMaxRegs int) []probe {
 	var names []string
 	for _, i := range poolFor(cn) {
 		names = append(names, pool[i].name)
@@ -599,6 +603,13 @@ func buildProbes(cn string, maxRegs int, shareKinds []string) []probe {
 					continue // accepted
 				}
 				add(k+":"+n, classOf(k, st.held[n]), full)
+			}
+		}
+		if len(st.ops) <= confMaxRegs {
+			for _, p := range confIll {
+				for _, n := range names {
+					add(p.kind()+":"+n, "ill-shape", full)
+				}
 			}
 		}
 		firstFree := ""
